@@ -109,7 +109,14 @@ def run(tier, seed, model_ok, translator, search=False):
                     k += 1
         for (i, sep, ts, explicit, path_mode) in cases:
             before = [snapshot(t) for t in ts]
-            text, res = impl_roundtrip(ts, sep, explicit, path_mode, scratch)
+            try:
+                text, res = impl_roundtrip(ts, sep, explicit, path_mode, scratch)
+            except Exception as e:  # noqa: BLE001 — write_csv (or the snapshot) raised on a well-formed bundle
+                out.evaluations += 1
+                out.fail("write_csv raised on a well-formed bundle", {"seed": seed, "index": i, "sep": sep,
+                         "explicit_sep": explicit, "path": path_mode}, type(e).__name__ + ": " + str(e)[:200], None,
+                         key="write_raised:" + type(e).__name__)
+                continue
             after = [snapshot(t) for t in ts]
             case = {"seed": seed, "index": i, "sep": sep, "explicit_sep": explicit, "path": path_mode,
                     "tables": [wc.table_val(t) for t in ts]}
